@@ -197,3 +197,49 @@ Proof.
   - exact Hco.
 Qed.
 Print Assumptions C19_api_call_continuous_chunked.
+
+(* ---- the counters count.  written_count c s is the NUMBER of indices below the Spec cursor that hold a
+   written sample.  After any history of rf_write and rf_write_blocks calls in continuous mode (both
+   layouts), and after any history of rf_write calls in gapped mode: the next available sample is the
+   Spec cursor, the total of samples written is the number of written indices, and the total of gap
+   samples is the number of skipped indices (cursor minus written indices). *)
+From DRF Require Import Proofs.Counters.
+
+Theorem C19_counters_count_continuous_unchunked : forall c ops,
+  vcfg c -> c_chunk c = false -> c_cont c = true -> Forall api_arg_ok ops ->
+  let ps := fold_left (api_state c) ops py_init in
+  let s := fold_left (api_spec_cont c) ops spec_init in
+  p_next ps = s_cur s /\ p_written ps = written_count c s /\ p_gap ps = s_cur s - written_count c s.
+Proof. exact counters_count_continuous_unchunked. Qed.
+Print Assumptions C19_counters_count_continuous_unchunked.
+
+Theorem C19_counters_count_continuous_chunked : forall c ops,
+  vcfg c -> c_chunk c = true -> c_cont c = true -> Forall api_arg_ok ops ->
+  let ps := fold_left (api_state c) ops py_init in
+  let s := fold_left (api_spec_cont c) ops spec_init in
+  p_next ps = s_cur s /\ p_written ps = written_count c s /\ p_gap ps = s_cur s - written_count c s.
+Proof. exact counters_count_continuous_chunked. Qed.
+Print Assumptions C19_counters_count_continuous_chunked.
+
+Theorem C19_counters_count_rf_write : forall c ops, vcfg c -> c_chunk c = true ->
+  Forall (fun op => match fst op with Some x => 0 <= x | None => True end) ops ->
+  let ps := fold_left (py_write_state c) ops py_init in
+  let s := fold_left (spec_step_opt c) ops spec_init in
+  p_next ps = s_cur s /\ p_written ps = written_count c s /\ p_gap ps = s_cur s - written_count c s.
+Proof. exact counters_count_rf_write. Qed.
+Print Assumptions C19_counters_count_rf_write.
+
+(* total_samples_written is the number of samples of the accepted calls: every history of API calls,
+   every mode, no hypothesis at all *)
+Theorem C19_written_is_accepted_total : forall c ops ps,
+  p_written (fold_left (api_state c) ops ps) = p_written ps + accepted_total c ps ops.
+Proof. exact written_is_accepted_total. Qed.
+Print Assumptions C19_written_is_accepted_total.
+
+Theorem C19_counters_example :
+  let c := mkCfg 150000000003 100 1 1 100 false true in
+  let ops := [(None, [1; 2]); (Some 5, [3]); (Some 1, [9]); (Some 30, [4; 5])] in
+  let s := fold_left (spec_step_opt c) ops spec_init in
+  s_cur s = 32 /\ written_count c s = 5 /\ s_cur s - written_count c s = 27.
+Proof. exact counters_example. Qed.
+Print Assumptions C19_counters_example.
